@@ -12,6 +12,7 @@ use std::io;
 use std::sync::Arc;
 
 const DEFAULT_PROTOCOL: Protocol = Protocol::Http1;
+const SCRUBBED_CREDENTIALS: &str = "scrubbed";
 
 #[derive(Debug, Copy, Clone, PartialEq, Eq, PartialOrd, Ord)]
 pub(crate) enum Protocol {
@@ -78,7 +79,10 @@ impl Debug for ConnectionMeta {
                    channel: {:?}, \
                    sni_auth_creds: {:?} \
                }}",
-            sni_ref, self.protocol, self.channel, self.sni_auth_creds,
+            sni_ref,
+            self.protocol,
+            self.channel,
+            self.sni_auth_creds.as_ref().map(|_| SCRUBBED_CREDENTIALS),
         )
     }
 }
@@ -311,7 +315,7 @@ impl TlsDemux {
                 None,
             )
         } else {
-            return Err(format!("Unexpected SNI {}", sni));
+            return Err(format!("Unexpected SNI {}", net_utils::scrub_sni(sni)));
         };
 
         Ok(ConnectionMeta {
